@@ -95,6 +95,13 @@ def run_case(c, work):
                 p.subscribe(lambda d: None)
                 probes[op[1]] = p
                 p.__enter__()
+            elif op[0] == "badact":
+                # an activation that is refused (the function has no such variable): nothing changes, also not for references
+                try:
+                    Probe(byname + " > no_such_variable_here", env=env).__enter__()
+                    outcome = "accepted"
+                except Exception as ex:
+                    outcome = "refused:" + type(ex).__name__
             elif op[0] in ("deact", "ndeact"):
                 probes[op[1]].__exit__(None, None, None)
             elif op[0] == "call":
